@@ -65,22 +65,66 @@ def Pcm.dataBytes (p : Pcm) : Bytes := p.frames.flatMap fun f => f.flatMap p.sam
 
 def Pcm.blockAlign (p : Pcm) : Nat := p.channels * (p.bits / 8)
 
-/-- canonical RIFF/WAVE file: `fmt ` (16 bytes, PCM) followed by `data`, pad byte after odd data -/
-def Pcm.file (p : Pcm) : Bytes :=
-  let d := p.dataBytes
-  let pad : Bytes := if d.length % 2 = 1 then [0] else []
-  [0x52, 0x49, 0x46, 0x46] ++ le32 (4 + 24 + 8 + d.length + pad.length) ++ [0x57, 0x41, 0x56, 0x45] ++
-  [0x66, 0x6d, 0x74, 0x20] ++ le32 16 ++ le16 1 ++ le16 p.channels ++ le32 p.rate ++
-  le32 (p.rate * p.blockAlign) ++ le16 p.blockAlign ++ le16 p.bits ++
-  [0x64, 0x61, 0x74, 0x61] ++ le32 d.length ++ d ++ pad
-
-/-- well-formed recordings of the property's quantifier -/
+/-- well-formed recordings of the property's quantifier (any frame count, including none) -/
 structure Pcm.Wf (p : Pcm) : Prop where
   bits : p.bits = 8 ∨ p.bits = 16
   channels : p.channels = 1 ∨ p.channels = 2
   rate : p.rate < 4294967296
   frames : ∀ f ∈ p.frames, f.length = p.channels ∧ ∀ v ∈ f, v < 2 ^ p.bits
-  nonempty : p.frames ≠ []
-  small : p.frames.length * 4 + 44 < 4294967296
+
+/-- a RIFF chunk: four-character id (given as the little-endian number of its four bytes),
+little-endian body size, body, and a zero pad byte after a body of odd size -/
+def chunk (id : Nat) (body : Bytes) : Bytes :=
+  le32 id ++ le32 body.length ++ body ++ (if body.length % 2 = 1 then [0] else [])
+
+def idFmt : Nat := 0x20746d66    -- "fmt "
+def idData : Nat := 0x61746164   -- "data"
+def idSmpl : Nat := 0x6c706d73   -- "smpl"
+
+/-- a chunk a WAV reader has to skip (LIST, fact, cue, …) -/
+structure Other where
+  id : Nat
+  body : Bytes
+
+def Other.Wf (o : Other) : Prop := o.id < 4294967296 ∧ o.id ≠ idFmt ∧ o.id ≠ idData ∧ o.id ≠ idSmpl
+
+def others (os : List Other) : Bytes := os.flatMap fun o => chunk o.id o.body
+
+/-- body of the 16-byte PCM `fmt ` chunk -/
+def Pcm.fmtBody (p : Pcm) : Bytes :=
+  le16 1 ++ le16 p.channels ++ le32 p.rate ++ le32 (p.rate * p.blockAlign) ++ le16 p.blockAlign ++ le16 p.bits
+
+/-- body of a `smpl` chunk without loop records: manufacturer, product, period, MIDI unity
+note, pitch fraction, SMPTE format, SMPTE offset, number of loops (0), sampler data (0) -/
+def smplBody (note : Nat) : Bytes :=
+  le32 0 ++ le32 0 ++ le32 0 ++ le32 note ++ le32 0 ++ le32 0 ++ le32 0 ++ le32 0 ++ le32 0
+
+/-- a WAV file of a recording: `fmt ` and `data` in this order, an optional `smpl` chunk (unity
+note, no loop) after the data, and any number of other chunks before, between and after -/
+structure WavFile where
+  pcm : Pcm
+  pre : List Other
+  mid : List Other
+  post : List Other
+  note : Option Nat
+
+def WavFile.smpl (w : WavFile) : Bytes :=
+  match w.note with
+  | some n => chunk idSmpl (smplBody n)
+  | none => []
+
+def WavFile.body (w : WavFile) : Bytes :=
+  others w.pre ++ chunk idFmt w.pcm.fmtBody ++ others w.mid ++ chunk idData w.pcm.dataBytes ++ w.smpl ++ others w.post
+
+def WavFile.bytes (w : WavFile) : Bytes :=
+  [0x52, 0x49, 0x46, 0x46] ++ le32 (4 + w.body.length) ++ [0x57, 0x41, 0x56, 0x45] ++ w.body
+
+structure WavFile.Wf (w : WavFile) : Prop where
+  pcm : w.pcm.Wf
+  pre : ∀ o ∈ w.pre, o.Wf
+  mid : ∀ o ∈ w.mid, o.Wf
+  post : ∀ o ∈ w.post, o.Wf
+  note : ∀ n, w.note = some n → n < 4294967296
+  small : w.bytes.length < 4294967295
 
 end Ctrmml.Alloc
